@@ -330,7 +330,7 @@ pub const SUBS: &[Sub] = &[
 pub fn run(ctx: &Ctx) {
     run_regress(ctx, SUBS);
     drive_enum(ctx, &SUBS[0], PARAM_KINDS.len() as u64);
-    drive_random(ctx, &SUBS[1], ctx.n(20_000, 1_000_000), 64);
+    drive_random(ctx, &SUBS[1], ctx.n(20_000, 10_000_000), 64);
     drive_enum(ctx, &SUBS[2], 1);
 }
 
